@@ -32,6 +32,7 @@ type Obligation struct {
 	Solver  string
 	Ms      int64
 	Model   string
+	FailSMT string
 	Witness *Term // optional: known-finding witness to split on
 }
 
